@@ -89,6 +89,11 @@ CHECKS = {
     technique="TLA+ definition of the unified result as Merge(config, tcp, http, tls) (Unified.tla), masking laws checked by TLC over all configurations x presence patterns; per-packet records of the unified analyzer and of the three protocol analyzers on the same traces validated by TLC (TV_C20)",
     text="Unified.tla defines, field by field, what the unified analyzer must report given the three protocol analyzers' results for the same packet and the configuration (protocol switches, matcher switch, database present), including the all-enabled-accept condition and the constructor rule; TLC proves on the definition that disabling a protocol removes only its fields and that disabling matching only turns qualities into disabled; real traces (handshakes with timestamps under an advancing scripted clock, HTTP exchanges, one- and multi-segment hellos, IPv6, malformed, non-TCP and invalid-flag frames) are fed packet by packet to one unified analyzer per configuration (32) and to the protocol analyzers sharing only the clock, and TLC checks every packet's unified result against Merge.",
     note="Trusted: TLC, Unified.tla, harness projection to digests, hook H1. TLS endpoints not compared (the stateless TLS analyzer reports none)."),
+ "C07": dict(
+    level="model_checking", design="§5 C07",
+    technique="TLA+ composition of per-connection machines with the HPACK table as the only candidate shared state (Analyzer.tla), all interleavings model-checked by TLC for NonInterference (and shown to fail with one shared table); TLC-enumerated interleavings of real connections replayed into the four analyzers, interleaved vs alone compared per connection (TV_C07)",
+    text="TLC explores every order-preserving interleaving of connection scripts, including HTTP/2 blocks that insert into the dynamic table, reference entry 62 without inserting, or shrink the table to 0, and shows each connection's outputs equal its outputs alone with per-connection tables but not with one shared table; it then enumerates every interleaving of the packets of 2-3 real connections (TCP handshakes with timestamps, two-segment ClientHellos, an HTTP/1 exchange, four HTTP/2 connection starts rendered by the Hpack/Http2 specifications, adversarial ones included), each replayed into one HuginnNetHttp / HuginnNetTls / HuginnNetTcp / HuginnNet instance and each connection alone into a fresh instance, and checks per connection that the attributed result sequences are equal.",
+    note="Trusted: TLC, Analyzer/Hpack/Http2 specs, result attribution by endpoints, hook H1. Quick tier samples up to 150 interleavings per connection set; thorough enumerates them."),
 }
 
 NOT_YET = {}
